@@ -372,6 +372,7 @@ def program(r, size=3):
 #           parameters and called there.
 # stage 11: lambda expressions as arguments.
 # stage 12: functions that return closures (over their parameters and a mutable local), passed on to function parameters.
+# stage 13: function-valued constants  c :: mk(e)  /  c :: f : called by name and passed on.
 
 class FragGen:
     def __init__(self, r, stage=1):
@@ -609,6 +610,20 @@ class FragGen:
             m = self.fresh("m")
             out.append("%s%s := %s" % (pad, m, self.int_expr(env, 1)))
             env["ints"].append(m); env["muts"].append(m)
+        if self.stage >= 13 and env.get("makers"):
+            # stage 4h: constants that hold the closures functions return (each its own captured state), and aliases
+            for _ in range(r.randint(1, 3)):
+                cf = self.fresh("cf")
+                out.append("%s%s :: %s(%s)" % (pad, cf, r.choice(env["makers"]), r.choice(env["ints"] + [str(r.randint(0, 9))])))
+                env["funs"].append((cf, 1))
+                out.append("%sprint(%s(%s))" % (pad, cf, self.int_expr(env, 0)))
+            one = [f for f, k in env["funs"] if k == 1]
+            if one and r.random() < 0.5:
+                al = self.fresh("al")
+                out.append("%s%s :: %s" % (pad, al, r.choice(one)))
+                env["funs"].append((al, 1))
+            for _ in range(r.randint(1, 2)):
+                out.append("%sprint(%s(%s))" % (pad, r.choice([f for f, k in env["funs"] if k == 1]), self.int_expr(env, 1)))
         if self.stage >= 12 and env.get("makers") and env.get("hofs"):
             for _ in range(r.randint(1, 2)):
                 h, n = r.choice(env["hofs"])
